@@ -626,12 +626,13 @@ def vals (s : CKS) (k : Candle Rat) : Except Panic (List VExp × CKS) := do
     { s with ma := m, highest1 := h1, lowest1 := l1, highest2 := h2, lowest2 := l2, prev_close := k.close })
 
 /-- signals from the returned `[stop_long, src, stop_short]`; first component: exact argument of the proportional signal -/
-def sigs (s : CKS) (v : List Rat) : (Rat × Action) × CKS :=
+def sigs (s : CKS) (v : List Rat) (rnd : Rat → Rat := id) : (Rat × Action) × CKS :=
   let sl := v.getD 0 0
   let src := v.getD 1 0
   let ss := v.getD 2 0
-  let mid := (ss + sl) * half
-  let size := mid - sl
+  -- `rnd`: the code forms the middle in floating point and tests `size == 0.0` on the rounded values
+  let mid := rnd (ss + sl) * half
+  let size := rnd (mid - sl)
   let value := if size == 0 then 0 else (src - mid) / size
   let diff := (ss - s.prev_stop_short) + (sl - s.prev_stop_long)
   let isS2 : Int := sgn (decide (ss < sl))
